@@ -4,12 +4,16 @@
 
    Reading guide.  A program is any list of steps: create a builder (SNew), call a With*/Add*
    method on a builder or sub-builder (SCall), observe OpProto/EntryProto (SProto), call a
-   client method (SClient: connection calls, Start, StartSending, AddEntry, ReplaceEntry,
+   client method (SClient: connection calls, Start, Stop, StartSending, AddEntry, ReplaceEntry,
    DeleteEntry, UpdateElectionID) — in any order, any number of times, on any number of
-   builders and clients.  [run p] is the model state after p; [all_ops cl] the operations
-   client cl has queued, in queue order; [client_calls c p] the calls made on client c, each
-   with the program prefix before it.  The theorems quantify over ALL programs. *)
-From Coq Require Import String List NArith ZArith Bool.
+   builders and clients; in particular a client may be started, stopped and started again any
+   number of times (every successful Start gives the fluent client a new client.Client).
+   [run p] is the model state after p; [all_ops cl] the operations fluent client cl has queued
+   over its WHOLE LIFE, restarts included, in queue order ([incarnations cl]: its client.Clients,
+   oldest first, the current one last; [inc_ops i]: the operations queued on one of them);
+   [client_calls c p] the calls made on client c, each with the program prefix before it.
+   The theorems quantify over ALL programs. *)
+From Coq Require Import String List NArith ZArith Bool Sorted.
 From GV.Base Require Import Alist U128.
 From GV.Tools Require Import Fluent FluentSpec FluentFacts.
 Import ListNotations.
@@ -84,7 +88,8 @@ Theorem C18_fields_exact_protos (p : list step) :
 Proof. exact (protos_exact p). Qed.
 Print Assumptions C18_fields_exact_protos.
 
-(* In the model, later steps never alter operations already queued: the queue grows at its end.
+(* In the model, later steps never alter operations already queued: the lifetime sequence grows at
+   its end — a restart moves the operations of the replaced client.Client to the past, unchanged.
    (The aliasing half of this clause — shared Go pointers — has no counterpart in a pure model
    and is checked on the implementation by the harness.) *)
 Theorem C18_queued_ops_stable (p q : list step) (c : cid) :
@@ -94,13 +99,90 @@ Print Assumptions C18_queued_ops_stable.
 
 (* ------------------------------------------------------------------ ids *)
 
-(* The ids of the operations of one client are 1, 2, 3, ... in queue order, whatever the mix of
-   calls (and opCount is their number). *)
+(* The ids of the operations of one fluent client are 1, 2, 3, ... in queue order over its whole
+   life, whatever the mix of calls, Stop and Start included (and opCount is their number). *)
 Theorem C18_ids (p : list step) (c : cid) :
   let ops := all_ops (cget (st_clients (run p)) c) in
   map o_id ops = ids_upto (List.length ops) /\ c_count (cget (st_clients (run p)) c) = N.of_nat (List.length ops).
 Proof. exact (ids_exact p c). Qed.
 Print Assumptions C18_ids.
+
+(* Across restarts.  Over the whole life of the fluent client the ids are strictly increasing in
+   queue order, hence pairwise distinct; and every operation queued on an earlier client.Client has
+   a smaller id than every operation queued on a later one (the current one included): a restart
+   never hands out an id again. *)
+Theorem C18_ids_increasing_across_restarts (p : list step) (c : cid) :
+  let cl := cget (st_clients (run p)) c in
+  StronglySorted N.lt (map o_id (all_ops cl))
+  /\ NoDup (map o_id (all_ops cl))
+  /\ (forall l1 a l2 b l3 x y, incarnations cl = l1 ++ a :: l2 ++ b :: l3 ->
+        In x (inc_ops a) -> In y (inc_ops b) -> o_id x < o_id y).
+Proof. exact (ids_across_restarts p c). Qed.
+Print Assumptions C18_ids_increasing_across_restarts.
+
+(* Only AddEntry / ReplaceEntry / DeleteEntry consume ids: any other call — Start, Stop, StartSending,
+   UpdateElectionID, a connection call — leaves opCount and the lifetime operations as they are. *)
+Theorem C18_other_calls_keep_counter (p : list step) (c : cid) (cc : ccall) :
+  opk_of cc = None ->
+  let cl := cget (st_clients (run p)) c in
+  let cl' := cget (st_clients (run (p ++ [SClient c cc]))) c in
+  c_count cl' = c_count cl /\ all_ops cl' = all_ops cl.
+Proof. exact (other_calls_keep_counter p c cc). Qed.
+Print Assumptions C18_other_calls_keep_counter.
+
+(* ------------------------------------------------------------------ lifecycle *)
+
+(* Start — the first one or a later one, after Stop or not — keeps what belongs to the fluent client:
+   the id counter, the current election id, the connection settings, everything queued so far. *)
+Theorem C18_restart_keeps (p : list step) (c : cid) :
+  let cl := cget (st_clients (run p)) c in
+  let cl' := cget (st_clients (run (p ++ [SClient c CStart]))) c in
+  c_count cl' = c_count cl /\ c_cur cl' = c_cur cl /\ c_mode cl' = c_mode cl /\ c_init cl' = c_init cl
+  /\ c_persist cl' = c_persist cl /\ c_fiback cl' = c_fiback cl /\ all_ops cl' = all_ops cl.
+Proof. exact (restart_keeps p c). Qed.
+Print Assumptions C18_restart_keeps.
+
+(* When it passes the check of fluent.go:178 (elected-primary mode needs an initial election id) it
+   gives the fluent client a fresh client.Client: nothing queued, not sending, session parameters
+   and handshake election id from the connection settings AS THEY ARE NOW (the handshake carries
+   the initial id, not the current one); the replaced client.Client, if any, becomes the last of the
+   past ones with its stream and its unsent queue as they were. *)
+Theorem C18_restart_fresh (p : list step) (c : cid) :
+  let cl := cget (st_clients (run p)) c in
+  let cl' := cget (st_clients (run (p ++ [SClient c CStart]))) c in
+  (c_mode cl =? 2) && (match c_init cl with None => true | Some _ => false end) = false ->
+  c_started cl' = true /\ c_sending cl' = false /\ c_stopped cl' = false /\ queued cl' = [] /\ c_fatals cl' = c_fatals cl
+  /\ c_params cl' = start_params cl /\ c_elec0 cl' = (if c_mode cl =? 2 then c_init cl else None)
+  /\ c_past cl' = c_past cl ++ (if c_started cl then [MkInc (c_sent cl) (c_sendq cl)] else []).
+Proof. exact (restart_fresh p c). Qed.
+Print Assumptions C18_restart_fresh.
+
+(* When it fails the check (t.Fatalf before client.New) the client.Client in place stays in place. *)
+Theorem C18_restart_fatal (p : list step) (c : cid) :
+  let cl := cget (st_clients (run p)) c in
+  let cl' := cget (st_clients (run (p ++ [SClient c CStart]))) c in
+  (c_mode cl =? 2) && (match c_init cl with None => true | Some _ => false end) = true ->
+  c_fatals cl' = c_fatals cl + 1 /\ c_started cl' = c_started cl /\ c_sending cl' = c_sending cl /\ c_stopped cl' = c_stopped cl
+  /\ c_sent cl' = c_sent cl /\ c_sendq cl' = c_sendq cl /\ c_past cl' = c_past cl.
+Proof. exact (restart_fatal p c). Qed.
+Print Assumptions C18_restart_fatal.
+
+(* Stop: the current client.Client stops sending and stays in place — what it sent and what it holds
+   are kept, later calls queue on it (unsent) and go on consuming ids. *)
+Theorem C18_stop (p : list step) (c : cid) :
+  let cl := cget (st_clients (run p)) c in
+  let cl' := cget (st_clients (run (p ++ [SClient c CStop]))) c in
+  c_count cl' = c_count cl /\ c_cur cl' = c_cur cl /\ c_mode cl' = c_mode cl /\ c_init cl' = c_init cl
+  /\ c_started cl' = c_started cl /\ c_sent cl' = c_sent cl /\ c_sendq cl' = c_sendq cl /\ c_past cl' = c_past cl
+  /\ (c_started cl = true -> c_sending cl' = false /\ c_stopped cl' = true).
+Proof. exact (stop_exact p c). Qed.
+Print Assumptions C18_stop.
+
+(* The client.Clients a later Start replaced are never touched again. *)
+Theorem C18_past_incarnations_stable (p q : list step) (c : cid) :
+  exists l, c_past (cget (st_clients (run (p ++ q))) c) = c_past (cget (st_clients (run p)) c) ++ l.
+Proof. exact (past_stable p q c). Qed.
+Print Assumptions C18_past_incarnations_stable.
 
 (* ------------------------------------------------------------------ operation type *)
 
@@ -136,7 +218,8 @@ Print Assumptions C18_election_stamp.
 
 (* The current election id of a client is the argument of the last WithInitialElectionID or
    UpdateElectionID call made on it (UpdateElectionID before a successful Start is not a
-   program: g.c is nil and the call panics), none if there was no such call ... *)
+   program: g.c is nil and the call panics), none if there was no such call — Start and Stop are
+   not in the table: the current id survives a restart ... *)
 Theorem C18_current_election_id (p : list step) (c : cid) :
   c_cur (cget (st_clients (run p)) c)
   = last_or (fun pc => sets_cur (c_started (cget (st_clients (run (fst pc))) c)) (snd pc)) None (client_calls c p).
@@ -207,4 +290,37 @@ Example C18_example_tables :
                     WithInterfaceRef "e2"; AddEncapHeader [4]; AddEncapHeader [5; 4]; WithDecapsulateHeader 1; WithDecapsulateHeader 9]
   = BE (MkEB "" None (ENH (MkNhSt 0 true
          (MkBody (Some "b") (Some ("e2", None)) None None None None [] [(1, 4); (2, 5); (3, 4)] 0 0)))).
+Proof. vm_compute. reflexivity. Qed.
+
+(* the lifecycle at work (what the compliance suite's flushServer does, plus an id update in between):
+   start, queue, send, update the election id, stop, queue on the stopped client (unsent), start again,
+   queue, send.  Ids run on over the restart (1, 2 | 3 unsent | 4, 5); the second handshake carries the
+   INITIAL election id (0,1) while the operations are stamped with the CURRENT one (0,2). *)
+Definition C18_restart_prog : list step :=
+  [SNew 1 KIPv4; SCall 1 (WithPrefix "1.0.0.0/8");
+   SClient 0 (CWithRedundancyMode 2); SClient 0 (CWithInitialElectionID 1 0); SClient 0 CStart;
+   SClient 0 (CAddEntry [1; 1]); SClient 0 CStartSending;
+   SClient 0 (CUpdateElectionID 2 0);
+   SClient 0 CStop;
+   SClient 0 (CDeleteEntry [1]);
+   SClient 0 CStart;
+   SClient 0 (CReplaceEntry [1]); SClient 0 CStartSending; SClient 0 (CAddEntry [1])].
+
+Example C18_example_restart_ids :
+  map (fun i => map o_id (inc_ops i)) (incarnations (cget (st_clients (run C18_restart_prog)) 0)) = [[1; 2; 3]; [4; 5]].
+Proof. vm_compute. reflexivity. Qed.
+
+Example C18_example_restart_streams :
+  incs_of (run C18_restart_prog) 0
+  = [MkInc [MkReq [] (Some (1, 0, 0)) None;
+            MkReq [] None (Some (0, 1));
+            MkReq [MkOp 1 "" 1 (Some (0, 1)) (PIPv4 (MkIp "1.0.0.0/8" None None None));
+                   MkOp 2 "" 1 (Some (0, 1)) (PIPv4 (MkIp "1.0.0.0/8" None None None))] None None;
+            MkReq [] None (Some (0, 2))]
+           [MkReq [MkOp 3 "" 3 (Some (0, 2)) (PIPv4 (MkIp "1.0.0.0/8" None None None))] None None];
+     MkInc [MkReq [] (Some (1, 0, 0)) None;
+            MkReq [] None (Some (0, 1));
+            MkReq [MkOp 4 "" 2 (Some (0, 2)) (PIPv4 (MkIp "1.0.0.0/8" None None None))] None None;
+            MkReq [MkOp 5 "" 1 (Some (0, 2)) (PIPv4 (MkIp "1.0.0.0/8" None None None))] None None]
+           []].
 Proof. vm_compute. reflexivity. Qed.
